@@ -221,6 +221,28 @@ Qed.
 Lemma repeat_database ops d : Forall db_op ops -> run_seq ops d = (map (fun t => fst (exec t d)) ops, d).
 Proof. intros H. apply run_seq_ro. eapply Forall_impl; [|exact H]. exact db_op_ro. Qed.
 
+(* a parsed PKCS#7 object: verifying one certificate leaves the object as it was, so the
+   verdict for another certificate cannot depend on it *)
+Section P7S.
+Variable rsa_ok : N -> bytes -> bytes -> bool.
+Lemma p7_op_ro t : p7_op rsa_ok t -> RO t.
+Proof. intros [c|c]; (apply RO_act; [intros ?; reflexivity | intros ?; apply RO_done]). Qed.
+Lemma repeat_p7 ops p : Forall (p7_op rsa_ok) ops -> run_seq ops p = (map (fun t => fst (exec t p)) ops, p).
+Proof. intros H. apply run_seq_ro. eapply Forall_impl; [|exact H]. exact p7_op_ro. Qed.
+Lemma schedules_p7 sigma p pool : Forall (p7_op rsa_ok) pool ->
+  fst (sched sigma p pool) = p /\
+  forall i t t' r, nth_error pool i = Some t -> nth_error (snd (sched sigma p pool)) i = Some t' ->
+    result t' = Some r -> r = fst (exec t p).
+Proof.
+  intros H.
+  assert (Hp : Forall RO pool) by (eapply Forall_impl; [|exact H]; exact p7_op_ro).
+  split; [exact (proj1 (sched_ro sigma p pool Hp))|].
+  intros i t t' r Hi Hi' Hr. exact (sched_results sigma p pool i t t' r Hp Hi Hi' Hr).
+Qed.
+Lemma exec_p7_verify c p : exec (op_p7_verify rsa_ok c) p = (PVerify (pkcs7_verify rsa_ok p c), p).
+Proof. reflexivity. Qed.
+End P7S.
+
 (* ---- the accidents the property names are visible in this model ---- *)
 Definition toyL : layout := mkLayout 0 224 false 136 16 0 0 [] 200.
 Definition toy : istate :=
